@@ -115,6 +115,10 @@ class PhaseField(_Simu):
 
         self.__resumeLoading = ""
         self.__resumeIter = ""
+        # convergence informations of the last Solve, stored by Save_Iter (also before the first Solve)
+        self.__Niter = 0
+        self.__timeIter = 0.0
+        self.__convIter = 0.0
 
         self.__displacement_solver = self.solver
 
